@@ -57,10 +57,9 @@ ASSUMPTIONS = [
 ]
 REQUIRED_COUNTERS = [
     "runs_exposure", "runs_obs_seq", "runs_obs_dask", "thread_batches", "proc_batches", "thread_starts", "proc_starts",
-    "dirs_checked", "mkdir_events", "mkdir_retries", "same_second_starts", "frozen_clock_effective",
+    "dirs_checked", "mkdir_events", "same_second_starts", "frozen_clock_effective",
     "entries_resolved", "combos_checked", "files_compared_exact", "files_compared_lossy", "fs_events", "write_events",
     "preexisting_files_hashed", "prepopulated_collisions", "writer_calls", "writer_collisions_checked", "probe_snapshots",
-    "dask_metadata_runs_seen",
 ]
 TIMEOUT = {"quick": 900, "thorough": 3600}
 LEVEL_TEXT = ("Exploration by runtime monitoring: every start is executed by the real run_mode (or the real writer functions) "
@@ -321,7 +320,7 @@ class FrozenClock:
 
 
 def rand_stamp(rng):
-    return _dt.datetime(rng.randint(2001, 2037), rng.randint(1, 12), rng.randint(1, 28), rng.randint(0, 23),
+    return _dt.datetime(rng.randint(1971, 2024), rng.randint(1, 12), rng.randint(1, 28), rng.randint(0, 23),
                         rng.randint(0, 59), rng.randint(0, 59))
 
 
@@ -970,6 +969,19 @@ def folders(root, cfg):
     return parent, folder, given
 
 
+def note_clock(ctx, cfg, clock, run_dir):
+    """The freeze counts as effective only when the frozen year shows in the name of the directory that was created."""
+    if not cfg["frozen"] or not run_dir:
+        return
+    year = cfg["stamp"][:4]
+    if clock.patched and year in os.path.basename(run_dir):
+        ctx.count("frozen_clock_effective")
+    elif not clock.patched:
+        ctx.count("frozen_clock_ineffective")
+    else:
+        ctx.count("frozen_clock_unconfirmed")
+
+
 def stamp_of(cfg):
     return _dt.datetime.fromisoformat(cfg["stamp"]) if cfg["frozen"] else None
 
@@ -994,8 +1006,6 @@ def case_exposure(rec, index, rng, root):
                                                          "relative", "hier", "n_starts", "reuse_mode", "prepopulate", "dtypes")}}
     ctx = Ctx(rec, case, index)
     with FrozenClock(stamp_of(cfg)) as clock:
-        if cfg["frozen"]:
-            ctx.count("frozen_clock_effective" if clock.patched else "frozen_clock_ineffective")
         if cfg["prepopulate"]:
             learn_and_prepopulate(ctx, rng, cfg, os.path.join(root, "scratch"), folder, rng.randint(1, 3))
         mode0 = None
@@ -1018,6 +1028,7 @@ def case_exposure(rec, index, rng, root):
             after = listing(parent)
             run_dir = current_dir(mode.outputs)
             dirs.append(run_dir)
+            note_clock(ctx, cfg, clock, run_dir)
             rec.count("runs_exposure")
             if s > 0:
                 rec.count("same_second_starts" if cfg["frozen"] else "repeated_starts_real_clock")
@@ -1056,8 +1067,6 @@ def case_observation(rec, index, rng, root, dask):
                                                    "hier", "n_starts", "space", "sched", "prepopulate", "dtypes")}}
     ctx = Ctx(rec, case, index)
     with FrozenClock(stamp_of(cfg)) as clock:
-        if cfg["frozen"]:
-            ctx.count("frozen_clock_effective" if clock.patched else "frozen_clock_ineffective")
         if cfg["prepopulate"]:
             learn_and_prepopulate(ctx, rng, cfg, os.path.join(root, "scratch"), folder, rng.randint(1, 2))
         for s in range(cfg["n_starts"]):
@@ -1082,6 +1091,7 @@ def case_observation(rec, index, rng, root, dask):
             events = MON.end()
             after = listing(parent)
             run_dir = current_dir(mode.outputs)
+            note_clock(ctx, cfg, clock, run_dir)
             rec.count("runs_" + tag, len(expected))
             rec.count("starts_" + tag)
             if s > 0:
@@ -1143,7 +1153,6 @@ def case_threads(rec, index, rng, root, tier):
             **{k: cfg[k] for k in ("save", "prefix", "stamp", "nested", "relative", "prepopulate", "dtypes")}}
     ctx = Ctx(rec, case, index)
     with FrozenClock(stamp_of(cfg)) as clock:
-        ctx.count("frozen_clock_effective" if clock.patched else "frozen_clock_ineffective")
         if cfg["prepopulate"]:
             learn_and_prepopulate(ctx, rng, cfg, os.path.join(root, "scratch"), folder, rng.randint(1, 3))
         for rnd in range(rounds):
@@ -1183,6 +1192,7 @@ def case_threads(rec, index, rng, root, tier):
             if any(t.is_alive() for t in threads):
                 raise RuntimeError("a concurrent start did not finish within its watchdog")
             runs = [{"id": j["id"], "tid": j["tid"], "dir": current_dir(j["outputs"])} for j in jobs]
+            note_clock(ctx, cfg, clock, runs[0]["dir"])
             rec.count("thread_batches")
             rec.count("thread_starts", n)
             rec.count("same_second_starts", n - 1)
@@ -1341,7 +1351,10 @@ def case_procs(rec, index, rng, root, n):
             ctx.viol(mech, f"process {o['id']} of {n}: {detail}")
         if o["err"]:
             ctx.viol("C19:procs:start-failed", f"process {o['id']} of {n}: {o['err']}")
-        rec.count("frozen_clock_effective" if o.get("frozen") else "frozen_clock_ineffective")
+        if o.get("frozen") and o["dir"] and cfg["stamp"][:4] in os.path.basename(o["dir"]):
+            rec.count("frozen_clock_effective")
+        else:
+            rec.count("frozen_clock_ineffective" if not o.get("frozen") else "frozen_clock_unconfirmed")
         rec.count("child_pyxel_modules_from_repo", o.get("pyxel_modules", 0))
         if o.get("monitor_errors"):
             rec.count("monitor_errors", o["monitor_errors"])
@@ -1389,6 +1402,9 @@ def case_writers(rec, index, rng, root):
     from pyxel.exposure import Exposure, Readout
     from pyxel.outputs import ExposureOutputs
     from pyxel.outputs import utils as U
+    import pathlib
+
+    import xarray as xr
     from pyxel.pipelines import Processor
     cfg = gen_common(rng, root)
     cfg.update({"yaml": False, "nested": False, "relative": False, "times": [1.0], "exotic": None})
@@ -1408,13 +1424,12 @@ def case_writers(rec, index, rng, root):
     ctx = Ctx(rec, case, index)
     outputs = ExposureOutputs(**outputs_kwargs(given, cfg["prefix"], cfg["save"]))
     with FrozenClock(stamp_of(cfg)) as clock:
-        if cfg["frozen"]:
-            ctx.count("frozen_clock_effective" if clock.patched else "frozen_clock_ineffective")
         before = listing(parent)
         MON.begin(parent)
         outputs.create_output_folder()
         events = MON.end()
         run_dir = current_dir(outputs)
+        note_clock(ctx, cfg, clock, run_dir)
         check_fs(ctx, "writer", parent, before, listing(parent), events, [{"id": 0, "tid": threading.get_ident(), "dir": run_dir}])
     run_dir = _real(run_dir)
     n_ops = rng.randint(5, 9)
@@ -1436,7 +1451,7 @@ def case_writers(rec, index, rng, root):
                 tree = target_outputs.save_to_file(processor)
                 return tree
             data = writer_data(op["fmt"], snap[op["bucket"]], detector)
-            path = getattr(U, op["api"])(current_output_folder=__import__("pathlib").Path(target_dir), data=data,
+            path = getattr(U, op["api"])(current_output_folder=pathlib.Path(target_dir), data=data,
                                          name=f"detector.{op['bucket']}.array",
                                          with_auto_suffix=op["naming"] != "fixed", run_number=op["run_number"])
             return str(path)
@@ -1506,7 +1521,7 @@ def case_writers(rec, index, rng, root):
             continue
         # what the call reports: fresh files with the right content
         if op["api"] == "save_to_file":
-            check_result(ctx, "writer:save_to_file", __import__("xarray").DataTree.from_dict({"/output": res}), run_dir,
+            check_result(ctx, "writer:save_to_file", xr.DataTree.from_dict({"/output": res}), run_dir,
                          cfg["save"], [key], snaps, seq_path=True, before=before, parent=parent)
             continue
         rec.count("entries_resolved")
@@ -1540,12 +1555,12 @@ MIX = ("exposure", "obs_seq", "obs_dask", "threads", "writers", "exposure", "obs
 
 def plan(tier, seed):
     if tier == "quick":
-        specs = [{"shard": s, "seed": seed, "kind": "mixed", "n": 9} for s in range(13)]
+        specs = [{"shard": s, "seed": seed, "kind": "mixed", "n": 11, "tier": tier} for s in range(13)]
         levels = [[2, 5], [3, 4], [6]]
         levels[seed % 3] = levels[seed % 3] + [2 + (seed * 7) % 15]
         specs += [{"shard": 13 + k, "seed": seed, "kind": "procs", "levels": lv, "n": len(lv)} for k, lv in enumerate(levels)]
         return specs
-    specs = [{"shard": s, "seed": seed, "kind": "mixed", "n": 110} for s in range(12)]
+    specs = [{"shard": s, "seed": seed, "kind": "mixed", "n": 110, "tier": tier} for s in range(12)]
     allv = [2, 3, 4, 5, 6, 7, 8, 9, 10, 11, 12, 13, 14, 15, 16, 2, 4, 8, 16, 3]
     for k in range(4):
         lv = allv[k::4]
@@ -1555,7 +1570,7 @@ def plan(tier, seed):
 
 def run_shard(spec, rec):
     MON.install()
-    tier = "thorough" if spec["n"] > 20 else "quick"
+    tier = spec.get("tier", "quick")
     for i in range(spec["n"]):
         if not rec.wanted(i):
             continue
@@ -1584,8 +1599,9 @@ def finalize(counters, sets, tier):
     out = []
     if counters.get("monitor_errors", 0):
         out.append(f"the audit-hook monitor failed on {counters['monitor_errors']} events")
-    if counters.get("frozen_clock_ineffective", 0):
-        out.append("the clock of create_output_directory could not be frozen (the 'datetime' name is no longer used)")
+    if counters.get("frozen_clock_ineffective", 0) or counters.get("frozen_clock_unconfirmed", 0) > counters.get("frozen_clock_effective", 0):
+        out.append("the clock of create_output_directory could not be frozen (the 'datetime' name is no longer what it reads): "
+                   "same-second starts were not forced")
     if len(sets.get("interleavings", [])) < 2:
         out.append("fewer than two distinct interleavings of concurrent starts were observed")
     if not any(int(x) >= 8 for x in sets.get("thread_levels", [])):
